@@ -93,3 +93,39 @@ Theorem C09_json_parser_stream : forall (pf : bytes -> option Z),
       exists p', SF.Json.Parse.jrun_chunks pf None cs = Ok (flat_map flatten ts, SF.Json.Parse.jpnil, p').
 Proof. exact SF.Core.ComposeProofs.C09_json_parser_stream. Qed.
 Print Assumptions C09_json_parser_stream.
+
+(* EVERY accepted input - not only the inputs a reference decoder accepts: the JSON parser is
+   deliberately lenient (+1, 01, \', further white space characters), the UBJSON parser accepts
+   inputs outside the reference decoder's domain - for any visitor behaviour, in Parse mode and
+   in any chunking: the delivered events are the flattening of a list of well-formed trees
+   (balanced, keys before member values, announced counts equal to the elements delivered,
+   elements of typed containers matching the announced type, numbers in range of their kind).
+   (A list, because both parsers accept several top-level values and the empty input.) *)
+From SF Require Json.AcceptedProofs Ubjson.AcceptedProofs.
+Theorem C09_json_accepted : forall (pf : bytes -> option Z),
+  (forall l z, pf l = Some z -> in_u 64 z = true) ->
+  forall vfail b evs p, all_bytes b = true ->
+  SF.Json.Parse.jrun_parse pf vfail b = Ok (evs, SF.Json.Parse.jpnil, p) ->
+  exists ts, evs = flat_map flatten ts /\ forallb wf_tree ts = true.
+Proof. exact SF.Json.AcceptedProofs.C09_json_accepted. Qed.
+Print Assumptions C09_json_accepted.
+
+Theorem C09_json_accepted_chunks : forall (pf : bytes -> option Z),
+  (forall l z, pf l = Some z -> in_u 64 z = true) ->
+  forall vfail cs evs p, all_bytes (concat cs) = true ->
+  SF.Json.Parse.jrun_chunks pf vfail cs = Ok (evs, SF.Json.Parse.jpnil, p) ->
+  exists ts, evs = flat_map flatten ts /\ forallb wf_tree ts = true.
+Proof. exact SF.Json.AcceptedProofs.C09_json_accepted_chunks. Qed.
+Print Assumptions C09_json_accepted_chunks.
+
+Theorem C09_ubj_accepted : forall vfail b evs p, all_bytes b = true ->
+  SF.Ubjson.Parse.urun_parse vfail b = Ok (evs, SF.Ubjson.Parse.unilE, p) ->
+  exists ts, evs = flat_map flatten ts /\ forallb wf_tree ts = true.
+Proof. exact SF.Ubjson.AcceptedProofs.C09_ubj_accepted. Qed.
+Print Assumptions C09_ubj_accepted.
+
+Theorem C09_ubj_accepted_chunks : forall vfail cs evs p, forallb all_bytes cs = true ->
+  SF.Ubjson.Parse.urun_chunks vfail cs = Ok (evs, SF.Ubjson.Parse.unilE, p) ->
+  exists ts, evs = flat_map flatten ts /\ forallb wf_tree ts = true.
+Proof. exact SF.Ubjson.AcceptedProofs.C09_ubj_accepted_chunks. Qed.
+Print Assumptions C09_ubj_accepted_chunks.
